@@ -329,6 +329,9 @@ Proof.
     (rewrite slice_from_ok; [discriminate|]; rewrite !len_app, !be_enc_len2, !fill_bytes_len, len_cons; lia).
 Qed.
 
+Lemma ok_inj {A} (a b : A) : Ok a = Ok b -> a = b.
+Proof. intros H. exact (f_equal (fun r => match r with Ok x => x | _ => a end) H). Qed.
+
 (* 0x0102: the index 1+AuthCodeLen+15 is inside Encode() because the parsed AuthCode has exactly
    AuthCodeLen bytes and the IMEI fifteen *)
 Theorem t0102_render_total ver body v : t0102_parse ver body = Ok v -> t0102_render v <> Panic.
@@ -336,11 +339,12 @@ Proof.
   unfold t0102_parse. destruct (ver =? 3).
   - destruct (len body <? 1 + 15 + 20) eqn:G1; [discriminate|]. rd.
     destruct (len body <? 1 + at_ body 0 + 15 + 20) eqn:G2; [discriminate|]. rd. rd. rd.
-    intros [= <-].
+    intros H. apply ok_inj in H. subst v.
     unfold t0102_render. cbn [vnth nth vnum vstr]. change (3 =? 3) with true. cbv iota.
     rewrite slice_from_ok. discriminate.
-    rewrite !len_app, len_cons, len_nil, fill_bytes_len, !len_sub by lia. lia.
-  - intros [= <-]. unfold t0102_render. cbn [vnth nth vnum]. change (2 =? 3) with false. discriminate.
+    rewrite len_app, len_cons, len_nil, len_app, len_app, fill_bytes_len.
+    rewrite (len_sub body 1) by lia. rewrite (len_sub body (1 + at_ body 0)) by lia. lia.
+  - intros H. apply ok_inj in H. subst v. unfold t0102_render. cbn [vnth nth vnum]. change (2 =? 3) with false. discriminate.
 Qed.
 
 Theorem render_msg_total id gbk ver d r body enc v :
